@@ -19,7 +19,7 @@ def main():
     extra = ""
     for pn in glob.glob(os.path.join(mut, x + "_notes.json")):
         try:
-            extra = " ".join(re.findall(r"-Wl,\S+|-l[a-z]+\b|-pthread", json.load(open(pn)).get("build", "")))
+            extra = " ".join(re.findall(r"-Wl,\S+|(?<=\s)-l[a-z]+(?=\s|$)|-pthread", json.load(open(pn)).get("build", "")))
         except Exception:
             pass
     r = subprocess.run([os.path.join(VERIF, "tools", "seed_confirm.sh"), d, patch, demo], env=dict(os.environ, DEMO_LDFLAGS=extra), stdout=subprocess.PIPE,
